@@ -181,7 +181,8 @@ def run(ctx):
             continue
         chosen = rng.sample(tops, rng.randrange(1, min(2, len(tops)) + 1))
         named = {c[0][0] for c in chosen}
-        el = [rw for rw in c15.eligible(base) if rw[1][0] not in named and len(rw[1]) > 1]
+        inside = rng.random() < 0.4       # ... or INSIDE the definitions that go to the registry (expanded when registered)
+        el = [rw for rw in c15.eligible(base) if ((rw[1][0] in named) if inside else (rw[1][0] not in named and len(rw[1]) > 1))]
         if not el:
             continue
         sh = base
@@ -200,7 +201,7 @@ def run(ctx):
         module_level = rng.random() < 0.35
         b = observe(s2, cfg, docs, refs.make_registries(rdefs, sdefs), module_level)
         cases += 1
-        dist["ref@field-beside-shorthand-siblings"] += 1
+        dist["ref@field-beside-shorthand-siblings" if not inside else "ref@field-holding-shorthands"] += 1
         d = compare(a, b)
         if d:
             violations.append({"signature": "shorthand-sibling:" + ("accept" if "accepted" in d else "outcome"),
